@@ -135,6 +135,10 @@ def analyse_locale(args):
                     t = m.rewrite(p, normalize).strip()
                     if t in d and d[t] != k and d[t] is not None:
                         out.append(("R3", locale, k, (p, normalize), "the rewritten phrase %r is a dictionary key meaning %r" % (t, d[t])))
+                    elif t not in d and not m.no_word_spacing and _lost_words(m, t, d, info, normalize):
+                        out.append(("R3", locale, k, (p, normalize), "rewriting (sanitising, numerals, normalisation, simplifications) turns the phrase into %r, which is "
+                                    "no dictionary key, matches no counted pattern as a whole, and contains the unknown word(s) %s: the locale rejects the string"
+                                    % (t, _lost_words(m, t, d, info, normalize))))
                     elif split_rx is not None:
                         mm = split_rx.search(t)
                         if mm and mm.group(0) and mm.span() != (0, len(t)):
@@ -146,6 +150,30 @@ def analyse_locale(args):
     except AnalysisError as e:
         return [("error", locale, None, None, "%s: %s" % (e.rule, e.reason))]
     return out
+
+
+def _lost_words(m, t, d, info, normalize):
+    """words of the rewritten phrase t that nothing in the locale knows, unless t as a whole is a counted phrase"""
+    for k, pats in info.get("relative-type-regex", {}).items():
+        vals = [normalize_unicode(p) for p in pats] if normalize else list(pats)
+        body = "|".join(sorted(vals, key=len, reverse=True))
+        try:
+            if regex.fullmatch(body, t, regex.U | regex.I):
+                return []
+        except regex.error:
+            return []
+    unknown = []
+    for w in t.split():
+        w0 = w.strip("()\"'{}[],.،:;")
+        if not w0 or w0 in d or w in d or regex.fullmatch(r"\d+(?:[.,:]\d+)*", w0):
+            continue
+        unknown.append(w0)
+    # multi-word dictionary keys contained in t cover their words
+    if unknown:
+        for key in d:
+            if " " in key and key in t:
+                unknown = [u for u in unknown if u not in key.split()]
+    return unknown
 
 
 def run(ctx, chk):
